@@ -359,6 +359,13 @@ class Engine(ExprMixin, CallMixin):
                     want = b.ty.elem
                 elif isinstance(b.ty, T.Rec) and isinstance(tgt.slice, ast.Constant):
                     want = b.ty.fields.get(tgt.slice.value)
+        elif isinstance(tgt, ast.Attribute):
+            # obj.field = dict() / [] / set(): the declared type of the field tells what the empty container is
+            lv = self.lvalue(tgt.value, st)
+            if lv is not None:
+                b = self.read_path(st, *lv)
+                if isinstance(b.ty, T.Rec):
+                    want = b.ty.fields.get(tgt.attr)
         v = self.eval_rhs(stmt.value, st, want)
         self.assign(tgt, v, st, stmt)
         return [Outcome("normal", st)]
